@@ -213,13 +213,13 @@ def gen_case(seed, idx, profile, k=None):
     def populate(h, aw, dw, al, depth):
         nops = rnd.randint(2, 9 if profile != "alloc" else 14)
         for _ in range(nops):
-            if profile == "names" and shared and rnd2.random() < 0.12:
+            if profile in ("names", "tree") and shared and rnd2.random() < 0.12:
                 # one (frozen) map may be the window of several parents, anonymously too: the names it
                 # brings along are the same everywhere, and nothing flows back into it
                 fits = [(c, sp) for c, sp, caw_, pdw in shared if caw_ <= aw - 4 and pdw == dw]
                 if fits:
                     c, sp = rnd2.choice(fits)
-                    ops.append(("win", h, c, None if rnd2.random() < 0.6 else name(), None, sp))
+                    ops.append(("win", h, c, None if (rnd2.random() < 0.6 and profile == "names") else name(), None, sp))
             if rnd2.random() < 0.12:
                 ops.append(("touch", h))         # pure queries in the middle of a history must change nothing
             kinds = ["res"] * 5 + ["align"]
@@ -381,6 +381,63 @@ def run_impl(case):
         return Res()
     objs = [mkobj() for _ in range(case["nres"])]
     ids = {id(x): i for i, x in enumerate(objs)}
+    # ---- usage style of this case (own random stream; the generated operations and the model's lines are the same
+    # under every style): queries left out between additions, queries consumed only partly, addresses decoded
+    # before later additions cover them, name parts spelled as bool / str-enum members or a 1-tuple as a string
+    us = lib.random.Random(case["nres"] * 104729 + len(ops) * 31 + 5)
+    style = {"sparse": us.random() < 0.3, "peek": us.random() < 0.4, "watch": us.random() < 0.4, "spell": us.random() < 0.3}
+    watch = {}       # h -> addresses decoded after every operation (C03: also BEFORE an addition covers them)
+    quiet = [False]
+
+    def spell(nm):
+        if not style["spell"] or nm is None or nm == BAD or isinstance(nm, str):
+            return nm
+        parts = []
+        for p_ in nm:
+            x = us.random()
+            if isinstance(p_, int) and not isinstance(p_, bool) and p_ in (0, 1) and x < .4:
+                parts.append(bool(p_))
+            elif isinstance(p_, str) and x < .4:
+                parts.append(_str_member(p_))
+            else:
+                parts.append(p_)
+        if len(parts) == 1 and isinstance(parts[0], str) and us.random() < .3:
+            return parts[0]
+        return tuple(parts)
+
+    def peek(h):
+        m = maps[h]
+        for q in us.sample([m.resources, m.windows, m.all_resources, m.window_patterns], us.randint(1, 3)):
+            try:
+                it = iter(q())
+                for _ in range(us.randint(1, 2)):
+                    next(it, None)
+            except AssertionError:
+                pass
+
+    def watch_check(h, where):
+        m = maps[h]
+        try:
+            infos = list(m.all_resources())
+        except AssertionError:
+            return
+        w = watch.setdefault(h, [0])
+        for a in w:
+            if not 0 <= a < (1 << m.addr_width):
+                continue
+            d = m.decode_address(a)
+            own = [i for i in infos if i.start <= a < i.end]
+            if (d is None) != (not own) or (own and d is not own[0].resource):
+                fails.append(("C03", f"{where}: decode_address({a}) = {'-' if d is None else ids.get(id(d), '?')} but all_resources() says "
+                                     f"{[ids.get(id(i.resource), '?') for i in own]} (the address had been decoded before the last additions)", len(obs)))
+        nxt = m.align_to(0)
+        for a in (nxt, nxt + 1, us.randrange(1 << min(m.addr_width, 12))):
+            if a not in w:
+                w.append(a)
+        del w[:-6]
+        for a in w:                          # decode now, so that the next operation happens AFTER these lookups
+            if 0 <= a < (1 << m.addr_width):
+                m.decode_address(a)
     lines, obs, fails = ["case"], [], []
     stats = {"ops": 0, "refused": 0, "inserted_not_last": 0, "win": 0, "dense": 0, "anon": 0,
              "depth2": 0, "win_not_at_0": 0, "conf_eq": 0, "conf_prefix": 0, "conf_ext": 0,
@@ -406,6 +463,8 @@ def run_impl(case):
             for w, n, (s, e, r) in m.windows())
 
     def snapshot(h):
+        if quiet[0]:
+            return None                # this operation is made without looking at the map before or after
         m = maps[h]
         return (fmt_res(m), fmt_win(m, h))
 
@@ -422,7 +481,11 @@ def run_impl(case):
             obs.append(ob)
 
     def probe(h):
-        if profile != "alloc":
+        if style["peek"] and us.random() < .2:
+            peek(h)
+        if style["watch"] and profile != "names":
+            watch_check(h, "after an operation")
+        if profile != "alloc" or quiet[0]:
             return
         m = maps[h]
         emit(f"align {h} 0", f"ok {m.align_to(0)}")
@@ -436,6 +499,7 @@ def run_impl(case):
     for op in ops:
         kind = op[0]
         stats["ops"] += 1
+        quiet[0] = style["sparse"] and profile == "alloc" and kind in ("res", "win") and us.random() < .6
         if kind == "new":
             _, h, aw, dw, al = op
             maps[h] = MemoryMap(addr_width=aw, data_width=dw, alignment=al)
@@ -453,7 +517,7 @@ def run_impl(case):
                 kw = {}
                 if pal is not None:
                     kw["alignment"] = py(pal)
-                s, e = m.add_resource(objs[rid], name=pname, size=py(size), addr=py(addr), **kw)
+                s, e = m.add_resource(objs[rid], name=spell(pname) if pname != 7 else pname, size=py(size), addr=py(addr), **kw)
                 res = f"ok {s} {e}"
             except Exception as ex:
                 res = classify(ex)
@@ -521,7 +585,7 @@ def run_impl(case):
             cur_before = m.align_to(0)
             child_frozen_before = getattr(c, "_frozen", None)
             try:
-                s, e, r = m.add_window(c, name=wname, addr=waddr, sparse=sparse)
+                s, e, r = m.add_window(c, name=spell(wname), addr=waddr, sparse=sparse)
                 res = f"ok {s} {e} {r}"
             except Exception as ex:
                 res = classify(ex)
@@ -714,6 +778,45 @@ def run_impl(case):
                     fails.append(("C03", f"find_resource found {res} which all_resources() does not report", len(obs)))
                 if allf and res not in allf:
                     fails.append(("C03", f"find_resource → {res}, all_resources() → {allf}", len(obs)))
+    quiet[0] = False
+    if profile == "alloc":
+        # after everything (freezes and hand-overs included): what every map reports now — exactly the ranges
+        # that were handed out, in ascending order
+        for h in sorted(maps):
+            m = maps[h]
+            emit(f"resources {h}", fmt_res(m))
+            emit(f"windows {h}", fmt_win(m, h))
+            got_r = [(ids.get(id(r), "?"), s_, e_) for r, n, (s_, e_) in m.resources()]
+            want_r = sorted(((it["id"], it["start"], it["end"]) for it in handed[h] if it["kind"] == "res"), key=lambda t: (t[1], t[2]))
+            got_w = [(wchild.get((h, id(w)), "?"), s_, e_) for w, n, (s_, e_, r_) in m.windows()]
+            want_w = sorted(((it["id"], it["start"], it["end"]) for it in handed[h] if it["kind"] == "win"), key=lambda t: (t[1], t[2]))
+            if sorted(got_r, key=lambda t: (t[1], t[2])) != want_r or got_r != sorted(got_r, key=lambda t: t[1]):
+                fails.append(("C02", f"map {h}: resources() reports {got_r[:8]}, the ranges handed out by add_resource were {want_r[:8]}", len(obs)))
+            if sorted(got_w, key=lambda t: (t[1], t[2])) != want_w or got_w != sorted(got_w, key=lambda t: t[1]):
+                fails.append(("C02", f"map {h}: windows() reports {got_w[:8]}, the ranges handed out by add_window were {want_w[:8]}", len(obs)))
+    # every map that has windows (not only the root) answers find_resource() for what its own all_resources() lists —
+    # a map that is the window of several parents is reported by each parent at that parent's addresses and names
+    for h in sorted(maps):
+        m = maps[h]
+        if not list(m.windows()):
+            continue
+        try:
+            infos = list(m.all_resources())
+        except AssertionError:
+            continue
+        firsts = {}
+        for i in infos:
+            firsts.setdefault(id(i.resource), i)
+        for i in list(firsts.values())[:12]:
+            try:
+                f = m.find_resource(i.resource)
+            except (KeyError, AssertionError):
+                fails.append(("C03", f"map {h}: find_resource() does not find resource {ids.get(id(i.resource), '?')} that its all_resources() reports", len(obs)))
+                continue
+            same = [x for x in infos if x.resource is i.resource]
+            if not any((tuple(map(tuple, f.path)), f.start, f.end, f.width) == (tuple(map(tuple, x.path)), x.start, x.end, x.width) for x in same):
+                fails.append(("C03", f"map {h}: find_resource({ids.get(id(i.resource), '?')}) → {tuple(map(tuple, f.path))} at {f.start}..{f.end}, "
+                                     f"its all_resources() reports it at {[(tuple(map(tuple, x.path)), x.start, x.end) for x in same]}", len(obs)))
     lines.append("end")
     # C18 consequence: reported paths pairwise distinct
     try:
@@ -727,6 +830,17 @@ def run_impl(case):
 
 class _Skip(Exception):
     pass
+
+
+_STR_MEMBERS = {}
+
+
+def _str_member(v):
+    """a member of a str-mixin enumeration whose value is `v` (equal to `v`, hashes like `v`, prints differently)"""
+    import enum
+    if v not in _STR_MEMBERS:
+        _STR_MEMBERS[v] = enum.Enum(f"Part_{len(_STR_MEMBERS)}", {"M": v}, type=str).M
+    return _STR_MEMBERS[v]
 
 
 def mask_names(line):
